@@ -395,3 +395,237 @@ def contracts(src, T):          # noqa: F811
                     continue
                 out.append(GeneralMirrors(src, T, nvar, main, mode))
     return out
+
+
+class TreeRoundTrip(Contract):
+    """TreeInfo.serialize + TreeInfo.deserialize on a tree with one top-level variant T, one child C of ANY type (symbolic), one image
+    table, one checksum, stage2 and media: every fact is read back as written (section naming by variant type, option names kept,
+    platforms incl. the arch, integer timestamp).  Bounded in SHAPE, unbounded in values."""
+    name = "productmd.treeinfo.TreeInfo.deserialize(serialize(tree))"
+    key = "rt:treeinfo.TreeInfo"
+
+    def __init__(self, src, T):
+        self.src, self.T = src, T
+
+    def setup(self, E):
+        from pyvc.models import ListSet
+        from pyvc.engine import Entry
+        ti, _ = _mk(E, TI_SECTIONS["treeinfo.Release"])
+        ti2, _ = _mk(E, TI_SECTIONS["treeinfo.Release"])
+        f = {}
+
+        def s(name, o, attr, lang=None):
+            v = SV(sym.Val.VStr(z3.Const("t.%s" % name, sym.S)))
+            if lang:
+                E.assume(sym.in_lang(v, lang))
+            o.fields[attr] = v
+            f[name] = v
+            return v
+        rel, tree = ti.fields["release"], ti.fields["tree"]
+        s("rel.name", rel, "name")
+        s("rel.short", rel, "short")
+        s("rel.version", rel, "version", r"[0-9]+(\.[0-9]+)*")
+        rel.fields["is_layered"] = False
+        arch = s("tree.arch", tree, "arch", r"[A-Za-z0-9_.-]+")
+        ts = SV(z3.Const("t.ts", sym.Val))
+        E.assume(And(sym.is_strict_int(ts), Not(eq(ts, 0))))
+        E.assume(sym.as_bool(z3.And(sym.sint(ts) >= -2 ** 53, sym.sint(ts) <= 2 ** 53)))      # A5: the reader goes through float()
+        tree.fields["build_timestamp"] = ts
+        f["ts"] = ts
+        plat = s("tree.plat", tree, "platforms", r"[A-Za-z0-9_.-]+")
+        tree.fields["platforms"] = ListSet([plat])
+        tid = s("T.id", ti, "_tmp", r"[A-Za-z0-9]+")
+        cid = s("C.id", ti, "_tmp", r"[A-Za-z0-9]+")
+        ctype = s("C.type", ti, "_tmp")
+        E.assume(sym.isin(ctype, self.T.TREE_VARIANT_TYPES))
+        ti.fields.pop("_tmp", None)
+        # a top-level variant of any type whose UID is its ID or a dashed UID such as 'Server-optional'
+        ttype = s("T.type", ti, "_tmp")
+        E.assume(sym.isin(ttype, self.T.TREE_VARIANT_TYPES))
+        tuid = tid
+        if E.decide(E.fresh("top_uid_dashed", z3.BoolSort())):
+            pre = s("T.uid_prefix", ti, "_tmp", r"[A-Za-z0-9]+")
+            tuid = sym.concat(pre, "-", tid)
+            E.assume(eq(ttype, "optional"))       # VariantBase._validate_variants: a dashed top-level key is accepted for type 'optional' only
+        ti.fields.pop("_tmp", None)
+        f["T.uid"] = tuid
+        top = E.instantiate(("treeinfo", "Variant"), [ti])
+        tname = s("T.name", top, "name")
+        top.fields.update({"id": tid, "uid": tuid, "type": ttype})
+        pk = s("T.packages", top.fields["paths"], "packages")
+        child = E.instantiate(("treeinfo", "Variant"), [ti])
+        cname = s("C.name", child, "name")
+        child.fields.update({"id": cid, "uid": sym.concat(tuid, "-", cid), "type": ctype, "parent": top})
+        rp = s("C.repository", child.fields["paths"], "repository")
+        top.fields["variants"].entries.append(Entry(cid, True, child))
+        ti.fields["variants"].fields["variants"].entries.append(Entry(tuid, True, top))
+        # images for the tree arch platform, mixed-case option name
+        img = s("img.path", ti, "_tmp")
+        ti.fields.pop("_tmp", None)
+        E.assume(Not(sym.startswith(img, "/")))
+        tbl = E.models.new_dict("images[arch]")
+        tbl.entries.append(Entry("Boot.ISO", True, img))
+        d = E.models.new_dict("images")
+        d.entries.append(Entry(plat, True, tbl))
+        ti.fields["images"].fields["images"] = d
+        ckp = s("ck.path", ti, "_tmp", r"[A-Za-z0-9._-][A-Za-z0-9._/-]*")
+        ckv = s("ck.value", ti, "_tmp", r"[0-9a-f]+")
+        ti.fields.pop("_tmp", None)
+        cd = E.models.new_dict("checksums")
+        cd.entries.append(Entry(ckp, True, ("sha256", ckv)))
+        ti.fields["checksums"].fields["checksums"] = cd
+        main = s("stage2.main", ti.fields["stage2"], "mainimage")
+        E.assume(And(Not(eq(main, "")), Not(sym.startswith(main, "/"))))
+        inst = s("stage2.inst", ti.fields["stage2"], "instimage")
+        E.assume(And(Not(eq(inst, "")), Not(sym.startswith(inst, "/"))))
+        dn = SV(z3.Const("t.discnum", sym.Val))
+        td = SV(z3.Const("t.totaldiscs", sym.Val))
+        E.assume(And(sym.is_strict_int(dn), sym.is_strict_int(td), Not(eq(dn, 0))))
+        ti.fields["media"].fields.update({"discnum": dn, "totaldiscs": td})
+        f.update({"dn": dn, "td": td})
+        for spec, o in ((F.valid_ti_release, rel), (F.valid_ti_tree, tree), (F.valid_ti_stage2, ti.fields["stage2"]),
+                        (F.valid_ti_media, ti.fields["media"])):
+            E.assume(spec(self.T, o))
+        return {"ti": ti, "ti2": ti2, "f": f, "parser": _new_parser(E), "top": top, "child": child}
+
+    def call(self, E, st):
+        E.call(E.getattr_(st["ti"], "serialize"), [st["parser"]])
+        return E.call(E.getattr_(st["ti2"], "deserialize"), [st["parser"]])
+
+    def post(self, E, st, out):
+        from pyvc.models import ListSet
+        if out.kind == "raise":
+            return {"write_read_cycle_succeeds": False}
+        f, t2 = st["f"], st["ti2"]
+        rel, tree = t2.fields["release"], t2.fields["tree"]
+        pl = tree.fields["platforms"]
+        pm = pl.items if isinstance(pl, ListSet) else None
+
+        def find(cont, k):
+            e = E.models.sd_lookup(cont, k, create=False)
+            return e.value if e is not None and e.present is True else None
+        top2 = find(t2.fields["variants"].fields["variants"], f["T.uid"])
+        ch2 = find(top2.fields["variants"], f["C.id"]) if isinstance(top2, Obj) else None
+        im = t2.fields["images"].fields["images"]
+        tb = find(im, f["tree.plat"]) if isinstance(im, SymDict) else None
+        ck = t2.fields["checksums"].fields["checksums"]
+        cv = find(ck, f["ck.path"]) if isinstance(ck, SymDict) else None
+        plat_ok = False
+        if pm is not None:
+            plat_ok = And(Or(*[eq(x, f["tree.arch"]) for x in pm]), Or(*[eq(x, f["tree.plat"]) for x in pm]),
+                          *[Or(eq(x, f["tree.arch"]), eq(x, f["tree.plat"])) for x in pm])
+        return {"write_read_cycle_succeeds": True,
+                "release_and_tree_reproduced": And(_veq(rel.fields["name"], f["rel.name"]), _veq(rel.fields["short"], f["rel.short"]),
+                                                   _veq(rel.fields["version"], f["rel.version"]), _veq(tree.fields["arch"], f["tree.arch"]),
+                                                   _veq(tree.fields["build_timestamp"], f["ts"]), plat_ok),
+                "top_variant_reproduced": isinstance(top2, Obj) and And(_veq(top2.fields["id"], f["T.id"]), _veq(top2.fields["uid"], f["T.uid"]),
+                                                                        _veq(top2.fields["name"], f["T.name"]), _veq(top2.fields["type"], f["T.type"]),
+                                                                        top2.fields["parent"] is None,
+                                                                        _veq(top2.fields["paths"].fields["packages"], f["T.packages"]),
+                                                                        top2.fields["paths"].fields["repository"] is None),
+                "child_variant_of_any_type_reproduced": isinstance(ch2, Obj) and And(_veq(ch2.fields["id"], f["C.id"]), _veq(ch2.fields["name"], f["C.name"]),
+                                                                                     _veq(ch2.fields["type"], f["C.type"]),
+                                                                                     _veq(ch2.fields["uid"], st["child"].fields["uid"]),
+                                                                                     _veq(ch2.fields["paths"].fields["repository"], f["C.repository"]),
+                                                                                     ch2.fields["parent"] is top2),
+                "image_table_reproduced_with_case_kept": isinstance(tb, SymDict) and
+                [(e.key) for e in tb.entries if e.present is True] == ["Boot.ISO"] and _veq(find(tb, "Boot.ISO"), f["img.path"]),
+                "checksum_reproduced": isinstance(cv, tuple) and And(_veq(cv[0], "sha256"), _veq(cv[1], f["ck.value"])),
+                "stage2_and_media_reproduced": And(_veq(t2.fields["stage2"].fields["mainimage"], f["stage2.main"]),
+                                                   _veq(t2.fields["stage2"].fields["instimage"], f["stage2.inst"]),
+                                                   _veq(t2.fields["media"].fields["discnum"], f["dn"]),
+                                                   _veq(t2.fields["media"].fields["totaldiscs"], f["td"])),
+                "version_current_after_load": t2.fields["header"].fields["version"] == "%d.%d" % self.T.VERSION}
+
+    def concretise(self, model, st):
+        return dict((k, concretise.value_of(model, v)) for k, v in st["f"].items())
+
+    def sample_inputs(self, rng):
+        base = {"rel.name": "Fedora", "rel.short": "F", "rel.version": "21", "tree.arch": "x86_64", "ts": 1417653911, "tree.plat": "xen",
+                "T.id": "Server", "T.uid": "Server", "T.type": "variant", "C.id": "HA", "C.type": "addon", "T.name": "Server", "T.packages": "Server/Packages", "C.name": "HA",
+                "C.repository": "addons/HA", "img.path": "images/boot.iso", "ck.path": "images/boot.iso", "ck.value": "ab12",
+                "stage2.main": "images/install.img", "stage2.inst": "images/inst.img", "dn": 1, "td": 2}
+        yield dict(base)
+        for ct in self.T.TREE_VARIANT_TYPES:
+            yield dict(base, **{"C.type": ct})
+        yield dict(base, **{"tree.plat": "xen-x86_64"})
+        yield dict(base, **{"tree.plat": "x86_64"})
+        yield dict(base, **{"T.id": "variant", "T.uid": "variant", "C.id": "addon", "C.type": "variant"})
+        yield dict(base, **{"T.id": "optional", "T.uid": "Server-optional", "T.type": "optional"})
+        yield dict(base, **{"T.type": "addon"})
+        yield dict(base, **{"ts": -1, "td": 0})
+
+    def _build(self, f):
+        TI = self.src.mods["treeinfo"]
+        ti = TI.TreeInfo()
+        ti.release.name, ti.release.short, ti.release.version = f["rel.name"], f["rel.short"], f["rel.version"]
+        ti.tree.arch, ti.tree.build_timestamp, ti.tree.platforms = f["tree.arch"], f["ts"], set([f["tree.plat"]])
+        top = TI.Variant(ti)
+        top.id, top.uid = f["T.id"], f["T.uid"]
+        top.name, top.type = f["T.name"], f["T.type"]
+        top.paths.packages = f["T.packages"]
+        ch = TI.Variant(ti)
+        ch.id, ch.uid, ch.name, ch.type, ch.parent = f["C.id"], "%s-%s" % (f["T.uid"], f["C.id"]), f["C.name"], f["C.type"], top
+        ch.paths.repository = f["C.repository"]
+        top.variants[ch.id] = ch
+        ti.variants.variants[top.uid] = top
+        ti.images.images[f["tree.plat"]] = {"Boot.ISO": f["img.path"]}
+        ti.checksums.checksums[f["ck.path"]] = ("sha256", f["ck.value"])
+        ti.stage2.mainimage, ti.stage2.instimage = f["stage2.main"], f["stage2.inst"]
+        ti.media.discnum, ti.media.totaldiscs = f["dn"], f["td"]
+        return ti
+
+    def native_eval(self, f):
+        TI = self.src.mods["treeinfo"]
+        try:
+            ti = self._build(f)
+            for o in (ti.release, ti.tree, ti.stage2, ti.media):
+                o.validate()
+        except Exception:
+            return ("skip", None), None
+        if not (isinstance(f["ts"], int) and abs(f["ts"]) <= 2 ** 53):
+            return ("skip", None), None
+        t2 = TI.TreeInfo()
+        parser = ti._get_parser()
+
+        def cyc():
+            ti.serialize(parser)
+            t2.deserialize(parser)
+        nat = native_call(cyc)
+        if nat[0] == "raise":
+            return nat, {"write_read_cycle_succeeds": False}
+        top2 = t2.variants.variants.get(f["T.uid"])
+        ch2 = top2.variants.get(f["C.id"]) if top2 is not None else None
+        cl = {"write_read_cycle_succeeds": True,
+              "release_and_tree_reproduced": (t2.release.name, t2.release.short, t2.release.version, t2.tree.arch, t2.tree.build_timestamp) ==
+              (f["rel.name"], f["rel.short"], f["rel.version"], f["tree.arch"], f["ts"]) and
+              t2.tree.platforms == set([f["tree.arch"], f["tree.plat"]]),
+              "top_variant_reproduced": top2 is not None and (top2.id, top2.uid, top2.name, top2.type, top2.paths.packages, top2.paths.repository, top2.parent) ==
+              (f["T.id"], f["T.uid"], f["T.name"], f["T.type"], f["T.packages"], None, None),
+              "child_variant_of_any_type_reproduced": ch2 is not None and
+              (ch2.id, ch2.uid, ch2.name, ch2.type, ch2.paths.repository) ==
+              (f["C.id"], "%s-%s" % (f["T.uid"], f["C.id"]), f["C.name"], f["C.type"], f["C.repository"]) and ch2.parent is top2,
+              "image_table_reproduced_with_case_kept": t2.images.images.get(f["tree.plat"]) == {"Boot.ISO": f["img.path"]},
+              "checksum_reproduced": tuple(t2.checksums.checksums.get(f["ck.path"], ())) == ("sha256", f["ck.value"]),
+              "stage2_and_media_reproduced": (t2.stage2.mainimage, t2.stage2.instimage, t2.media.discnum, t2.media.totaldiscs) ==
+              (f["stage2.main"], f["stage2.inst"], f["dn"], f["td"]),
+              "version_current_after_load": t2.header.version == "%d.%d" % self.T.VERSION}
+        return nat, cl
+
+    def describe(self, f):
+        return "TreeInfo(%s) serialised into a parser and re-read" % ", ".join("%s=%s" % (k, concretise.py_repr(v)) for k, v in sorted(f.items()))
+
+
+def contracts(src, T):          # noqa: F811
+    out = []
+    for n in TI_SECTIONS:
+        out.append(TiWriter(src, T, n))
+        out.append(TiRoundTrip(src, T, n))
+    for mode in ("flat", "paths-pkg", "paths-repo"):
+        for nvar in (1, 2):
+            for main in (False, True):
+                if mode == "flat" and main and nvar == 1:
+                    continue
+                out.append(GeneralMirrors(src, T, nvar, main, mode))
+    out.append(TreeRoundTrip(src, T))
+    return out
